@@ -16,15 +16,37 @@ pub struct HOut {
     pub v: u64,
     pub b: Vec<u8>,
     pub file: bool,
+    /// kind of error a failing handler returns: 0 ReqHandlerError(EIO), `failI` BackendInternalError, `failP` PartialMessage,
+    /// `failS` SocketBroken, `failF` FrontendInternalError, `failM` InvalidMessage, `failX` InvalidParam
+    pub kind: u8,
+}
+
+thread_local! {
+    /// kind of the failure the current handler invocation is to return, and whether it did fail (set by `log`)
+    pub static FAIL_KIND: std::cell::Cell<u8> = const { std::cell::Cell::new(0) };
+}
+
+/// the error a failing handler returns for kind `k`
+pub fn handler_error(k: u8) -> Error {
+    match k {
+        b'I' => Error::BackendInternalError,
+        b'P' => Error::PartialMessage,
+        b'S' => Error::SocketBroken(std::io::Error::from_raw_os_error(libc::EPIPE)),
+        b'F' => Error::FrontendInternalError,
+        b'M' => Error::InvalidMessage,
+        b'X' => Error::InvalidParam,
+        _ => Error::ReqHandlerError(std::io::Error::from_raw_os_error(libc::EIO)),
+    }
 }
 
 impl HOut {
     /// `h=ok|fail[,v=<hex>][,b=<hex>][,f=0|1]`
     pub fn parse(s: &str) -> HOut {
-        let mut h = HOut { ok: true, v: 0, b: vec![], file: true };
+        let mut h = HOut { ok: true, v: 0, b: vec![], file: true, kind: 0 };
         for (i, part) in s.split(',').enumerate() {
             if i == 0 {
                 h.ok = part == "ok";
+                h.kind = part.strip_prefix("fail").and_then(|k| k.bytes().next()).unwrap_or(0);
             } else if let Some(x) = part.strip_prefix("v=") {
                 h.v = parse_hex_u64(x);
             } else if let Some(x) = part.strip_prefix("b=") {
@@ -88,13 +110,14 @@ impl Rec {
         let f = if fds.is_empty() { "-".to_string() } else { fds.join(",") };
         let mut sh = self.sh.lock().unwrap();
         sh.calls.push(format!("{}:{}:{}:{}", name, a, bytes_to_hex(payload), f));
+        FAIL_KIND.with(|k| k.set(sh.next.kind));
         sh.next.clone()
     }
     fn unit(&self, h: HOut) -> Result<()> {
-        if h.ok { Ok(()) } else { Err(Error::ReqHandlerError(std::io::Error::from_raw_os_error(libc::EIO))) }
+        if h.ok { Ok(()) } else { Err(handler_error(h.kind)) }
     }
     fn herr<T>() -> Result<T> {
-        Err(Error::ReqHandlerError(std::io::Error::from_raw_os_error(libc::EIO)))
+        Err(handler_error(FAIL_KIND.with(|k| k.get())))
     }
     fn fresh_file(&self) -> File {
         use std::os::unix::io::FromRawFd;
